@@ -858,12 +858,13 @@ type ctxKey struct {
 }
 
 type ctxWalker struct {
-	c     *Ctx
-	pass  func(call *ssa.Call) bool
-	fold  bool
-	cond  bool                   // `if x != nil { ctx = pass(ctx, x) }` counts as passed (there is nothing to pass when x is nil)
-	local bool                   // do not follow parameters to the callers: a parameter is an origin that has not passed
-	scope map[*ssa.Function]bool // when set, only callers in this set are followed (one transport's request paths)
+	c      *Ctx
+	pass   func(call *ssa.Call) bool
+	fold   bool
+	cond   bool                   // `if x != nil { ctx = pass(ctx, x) }` counts as passed (there is nothing to pass when x is nil)
+	local  bool                   // do not follow parameters to the callers: a parameter is an origin that has not passed
+	scope  map[*ssa.Function]bool // when set, only callers in this set are followed (one transport's request paths)
+	strict bool                   // the result of a dynamic call is not taken to derive from the context handed to it
 }
 
 func (w *ctxWalker) descendsLocal(fn *ssa.Function, v ssa.Value, d int, seen map[ctxKey]bool) (bool, string) {
@@ -894,6 +895,9 @@ func (w *ctxWalker) descends(fn *ssa.Function, v ssa.Value, d int, seen map[ctxK
 		}
 		if n == "context.Background" || n == "context.TODO" {
 			return false, n + " in " + fname(fn)
+		}
+		if w.strict && !x.Call.IsInvoke() && ir.StaticCallee(x) == nil {
+			return false, "the result of a function value (a user-supplied function need not derive its result from the context it is handed) in " + fname(fn)
 		}
 		for _, a := range x.Call.Args {
 			if ir.TypeStr(a.Type()) == "context.Context" {
